@@ -439,6 +439,36 @@ impl UserRx {
         Ok(flushed_bytes)
     }
 
+    /// The socket is going away. Hand everything that was received in order (and ACKed) to the
+    /// reader, even if it doesn't fit into the queue's capacity: otherwise it would be lost.
+    /// It doesn't take more memory, the data just moves from one queue to the other.
+    pub fn flush_on_close(&mut self) {
+        let mut flushed = false;
+        while self
+            .ooq
+            .send_front_if_fits(usize::MAX, |msg| {
+                let mut g = self.shared.locked.lock();
+                if g.reader_dropped {
+                    return Err(msg);
+                }
+                g.queue.push_back(match msg {
+                    OoqMessage::Payload(payload) => UserRxMessage::Payload(payload),
+                    OoqMessage::Eof => UserRxMessage::Eof,
+                });
+                Ok(())
+            })
+            .is_some()
+        {
+            flushed = true;
+        }
+        if flushed {
+            let waker = self.shared.locked.lock().reader_waker.take();
+            if let Some(w) = waker {
+                w.wake();
+            }
+        }
+    }
+
     /// Enqueue an error into read half to be consumed by the user.
     pub fn enqueue_error(&self, msg: String) {
         let mut g = self.shared.locked.lock();
